@@ -424,6 +424,46 @@ def b_hashed_coercion(g, n, nparts):
     return ""
 
 
+def b_hashed_list_change(g, n, n1, n2):
+    """the partitioner is built with one list and later handed another (the topic's partition count changed):
+    the result must be the member of the *supplied* list that the hash selects"""
+    key = g.bytes(n, "k")
+    hv = [0]
+
+    def fake(ba, seed=SEED):
+        return hv[0]
+
+    def mk(cnt, name):
+        ps = []
+        for i in range(cnt):
+            p = g.int(0, 2**31 - 1, name)
+            if ps:
+                g.assume(p > ps[-1])
+            ps.append(p)
+        return ps
+
+    a, b = mk(n1, "p"), mk(n2, "q")
+    orig = part.pure_murmur2
+    part.pure_murmur2 = fake
+    try:
+        import warnings
+
+        with warnings.catch_warnings():
+            warnings.simplefilter("ignore")
+            hp = HashedPartitioner("t", a)
+            for h in (0, 1, 5, 7, 2**31 + 3, 2**32 - 1):
+                hv[0] = h
+                try:
+                    r = hp.partition(key, b)
+                except IndexError:
+                    return "IndexError for a list shorter than the one the partitioner was built with"
+                if r != b[(h & 0x7FFFFFFF) % n2]:
+                    return "result is not supplied_list[(hash & 0x7fffffff) % len(supplied_list)]"
+    finally:
+        part.pure_murmur2 = orig
+    return ""
+
+
 def b_hashed_text(g, ti, nparts):
     """text and UTF-8 byte forms of a key agree (text from a pool covering 1..4-byte encodings)"""
     text = TEXT_POOL[ti]
@@ -539,6 +579,8 @@ def obligations(tier):
     for n in (0, 1, 3, 4) if q else (0, 1, 2, 3, 4, 5, 8):
         for npart in (1, 3):
             add("hashed bytes/bytearray len=%d parts=%d" % (n, npart), "b_hashed_coercion", n=n, nparts=npart)
+    for n1, n2 in [(4, 6), (4, 3), (1, 2), (3, 3)]:
+        add("hashed list change %d->%d" % (n1, n2), "b_hashed_list_change", n=2, n1=n1, n2=n2)
     for ti in range(len(TEXT_POOL)):
         add("hashed text #%d" % ti, "b_hashed_text", ti=ti, nparts=1 + ti % 4)
     for n in (1, 2, 3, 4) if q else (1, 2, 3, 4, 5, 6):
